@@ -100,8 +100,10 @@ Definition alias_target_path (f : features) (e : alias_env) : option (list strin
     | None => None
     | Some p =>
       if cyclic p c then None else
-      if same_components p c then None else
-      let c' := if mem_str (join_dot (lstrip_path c)) (map lstrip_us (ae_builtins e)) then lstrip_path c else c in
+      (* objects declared in the parent's module (up to leading underscores) are not aliased; a module object always is *)
+      if negb (f PIsModule) && same_components p c then None else
+      (* objects of built-in modules are moved to the public module name; a module object keeps its own name *)
+      let c' := if negb (f PIsModule) && mem_str (join_dot (lstrip_path c)) (map lstrip_us (ae_builtins e)) then lstrip_path c else c in
       if f PIsModule then Some c' else Some (c' ++ ae_qualname e)
     end
   end.
